@@ -6,10 +6,10 @@ package common
 // unexported constants the validation model depends on, re-exported so the
 // constants translator reads them from the current tree.
 const (
-	VerifMintGroupUniversal         = mintGroupUniversal
-	VerifCustodianNodeExtraSize     = custodianNodeExtraSize
-	VerifCustodianNodeActionUpdate  = custodianNodeActionUpdate
-	VerifCustodianNodesMinimumCount = custodianNodesMinimumCount
-	VerifCustodianNodeNewPrice      = custodianNodeNewPrice
-	VerifCustodianNodeUpdatePrice   = custodianNodeUpdatePrice
+	VerifValMintGroupUniversal         = mintGroupUniversal
+	VerifValCustodianNodeExtraSize     = custodianNodeExtraSize
+	VerifValCustodianNodeActionUpdate  = custodianNodeActionUpdate
+	VerifValCustodianNodesMinimumCount = custodianNodesMinimumCount
+	VerifValCustodianNodeNewPrice      = custodianNodeNewPrice
+	VerifValCustodianNodeUpdatePrice   = custodianNodeUpdatePrice
 )
